@@ -31,6 +31,12 @@ T = [
  ("C01-zsh-dollar-hash-backquote-escape", W("file","zsh","i0","`\"$#\\$\"`")),
  ("C01-zsh-paren-arg-after-redirect", W("file","zsh","i0","$ <<E (f)\nE\n")),
  ("C01-zsh-special-param-subscript", W("word#2","zsh","i0","rad 1 $?[ab]\n")),
+ ("C01-dashhdoc-vt-ff", W("file","bash","i0","cat <<-EOF\n\ta\fb\n\tEOF\n")),
+ ("C01-paramexp-word-escaped-newline", W("file","bash","i0","{\n\techo ${a:-\\\nb}\n}\n")),
+ ("C01-slice-offset-incdec", W("file","bash","i0","echo ${a: ++x}\n")),
+ ("C01-let-escaped-newline", W("file","bash","i0","let a=1+\\\n2\n")),
+ ("C01-zsh-simplify-slice-modifier", W("file","zsh","i0","echo ${x:$a}\n", s=1)),
+ ("C01-zsh-subshell-anon-func", W("file","zsh","i0","( () { a; } )\n")),
  ("C01-minify-empty-block", W("file","mksh","i0,mn","{ }\n")),
  ("C01-command-first-newline", W("cmd#0","bash","i0","case x in\nesac\n")),
  ("C01-zsh-dollar-hash-eof", W("word#1","zsh","i0","echo $#\n")),
